@@ -3,6 +3,8 @@ C27 — the step that hands a connection to a caller has "not dead" as a guard.
 -/
 import TdModel.Lemmas.C27f
 
+set_option linter.unusedSimpArgs false
+
 namespace TdModel.C27
 
 theorem setPc_using {t : State} {i0 : Nat} {x : Caller} {p : PC} {i : Nat} {y : Caller} {c : Nat}
@@ -40,14 +42,15 @@ theorem release_callers {s s1 : State} {d : Nat} {k : Option Nat} (h : release s
     s1.callers = s.callers := (release_spec h).2.2.2.2.1
 
 /-- If caller `i` is using `c` after a step and was not before, the step checked that `c` is not dead. -/
-theorem handout_checks {cfg : Cfg} (hg : cfg.handoutChecksDead = true) {s s' : State} (a : Action)
+theorem handout_checks {cfg : Cfg} (hgood : Good cfg) {s s' : State} (a : Action)
     (h : step cfg s a = some s') (i : Nat) (y : Caller) (c : Nat)
     (hy : s'.callers[i]? = some y) (hp : y.pc = .using c)
     (hnot : ∀ x, s.callers[i]? = some x → x.pc ≠ .using c) : isDead s c = false := by
+  obtain ⟨hg, _, hgB, hgT, hgR⟩ := hgood
   have old : ∀ {P : Prop}, s.callers[i]? = some y → P := fun h' => absurd hp (hnot y h')
   cases a with
   | start j =>
-    simp only [step] at h
+    simp only [step, markDeadCfg_good hgR, hgB, hgT, if_true] at h
     split at h
     · split at h
       · cases h
@@ -57,7 +60,7 @@ theorem handout_checks {cfg : Cfg} (hg : cfg.handoutChecksDead = true) {s s' : S
       · cases h
     · cases h
   | enter j =>
-    simp only [step] at h
+    simp only [step, markDeadCfg_good hgR, hgB, hgT, if_true] at h
     split at h
     · split at h
       · split at h
@@ -77,7 +80,7 @@ theorem handout_checks {cfg : Cfg} (hg : cfg.handoutChecksDead = true) {s s' : S
       · cases h
     · cases h
   | mk j =>
-    simp only [step] at h
+    simp only [step, markDeadCfg_good hgR, hgB, hgT, if_true] at h
     split at h
     · split at h
       · cases h
@@ -87,7 +90,7 @@ theorem handout_checks {cfg : Cfg} (hg : cfg.handoutChecksDead = true) {s s' : S
       · cases h
     · cases h
   | check j =>
-    simp only [step] at h
+    simp only [step, markDeadCfg_good hgR, hgB, hgT, if_true] at h
     split at h
     · split at h
       · split at h
@@ -104,7 +107,7 @@ theorem handout_checks {cfg : Cfg} (hg : cfg.handoutChecksDead = true) {s s' : S
       · cases h
     · cases h
   | cwake j b =>
-    simp only [step] at h
+    simp only [step, markDeadCfg_good hgR, hgB, hgT, if_true] at h
     split at h
     · split at h
       · split at h
@@ -137,7 +140,7 @@ theorem handout_checks {cfg : Cfg} (hg : cfg.handoutChecksDead = true) {s s' : S
       · cases h
     · cases h
   | wwake j b =>
-    simp only [step] at h
+    simp only [step, markDeadCfg_good hgR, hgB, hgT, if_true] at h
     split at h
     · split at h
       · cases b with
@@ -168,7 +171,7 @@ theorem handout_checks {cfg : Cfg} (hg : cfg.handoutChecksDead = true) {s s' : S
       · cases h
     · cases h
   | giveup j ko =>
-    simp only [step] at h
+    simp only [step, markDeadCfg_good hgR, hgB, hgT, if_true] at h
     split at h
     · split at h
       · rename_i k w _
@@ -201,7 +204,7 @@ theorem handout_checks {cfg : Cfg} (hg : cfg.handoutChecksDead = true) {s s' : S
       · cases h
     · cases h
   | finish j r ko =>
-    simp only [step] at h
+    simp only [step, markDeadCfg_good hgR, hgB, hgT, if_true] at h
     split at h
     · split at h
       · split at h
@@ -223,19 +226,19 @@ theorem handout_checks {cfg : Cfg} (hg : cfg.handoutChecksDead = true) {s s' : S
       · cases h
     · cases h
   | ready d =>
-    simp only [step] at h
+    simp only [step, markDeadCfg_good hgR, hgB, hgT, if_true] at h
     split at h
     · cases h; exact old hy
     · cases h
   | die d =>
-    simp only [step] at h
+    simp only [step, markDeadCfg_good hgR, hgB, hgT, if_true] at h
     split at h
     · cases h
       rw [markDead_callers] at hy
       exact old hy
     · cases h
   | cancel j =>
-    simp only [step] at h
+    simp only [step, markDeadCfg_good hgR, hgB, hgT, if_true] at h
     split at h
     · rename_i x hx
       cases h
@@ -251,7 +254,7 @@ theorem handout_checks {cfg : Cfg} (hg : cfg.handoutChecksDead = true) {s s' : S
         exact old hy
     · cases h
   | bg d rel ko =>
-    simp only [step] at h
+    simp only [step, markDeadCfg_good hgR, hgB, hgT, if_true] at h
     split at h
     · split at h
       · cases rel with
